@@ -397,6 +397,9 @@ class SummCtx:
                 return
         raise I.unanalysable("call of %s inside a loop over a symbolic string (no summary for its effects)" % (f.get("path"),))
 
+    def is_target(self, v):
+        return any(v is t for t, _ in self.log) or any(v is t for t, _ in self.tables.values())
+
     def append(self, I, target, parts):
         self.log.append((target, list(parts)))
 
@@ -451,8 +454,6 @@ def bytes_append(I, target, parts):
     """append parts to a byte string (deferred while a loop over a symbolic string is being summarised)"""
     s = getattr(I, "summ", None)
     if s is not None:
-        for tg, _ in s.log:
-            pass
         s.append(I, target, parts)
     else:
         target.parts.extend(parts)
@@ -769,7 +770,7 @@ def _vec_push(I, f, a):
     elif isinstance(v, VecObj):
         v.elems.append(a[1])
     elif isinstance(v, Bytes):
-        bytes_append(I, v, [("u8", a[1])])
+        bytes_append(I, v, [("lit", bytes([a[1] & 255]))] if isinstance(a[1], int) and not isinstance(a[1], bool) else [("u8", a[1])])
     else:
         raise I.unanalysable("Vec::push on %r" % type(v).__name__)
     return unit()
@@ -1679,6 +1680,8 @@ def _reg_int_methods():
         MODELS[base + "abs"] = _int_abs
         MODELS[base + "wrapping_abs"] = _int_abs
         MODELS[base + "wrapping_shr"] = _mk_wrapping_shift("Shr")
+        MODELS[base + "checked_shl"] = _mk_checked_shift("Shl")
+        MODELS[base + "checked_shr"] = _mk_checked_shift("Shr")
     MODELS["core::f64::<impl f64>::to_be_bytes"] = _mk_to_bytes("be")
     MODELS["core::f64::<impl f64>::to_le_bytes"] = _mk_to_bytes("le")
     MODELS["core::f64::<impl f64>::from_be_bytes"] = _mk_from_bytes("be")
@@ -1727,6 +1730,23 @@ def _mk_wrapping_shift(op):
             r &= (1 << bits) - 1
             return r - (1 << bits) if (tlo < 0 and r > thi) else r
         return Sym("shl" if op == "Shl" else "shr", (x, n), ty)
+    return m
+
+
+def _mk_checked_shift(op):
+    def m(I, f, a):
+        """x.checked_shl(n): None when n >= bits, else the wrapping shift"""
+        ty = _int_ty(f)
+        bits = INT_TYPES[ty][0]
+        x, n = a
+        lo, hi = bounds(n) if is_sym(n) else (n, n)
+        if hi < bits and lo >= 0:
+            return some(_mk_wrapping_shift(op)(I, f, [x, n]))
+        if lo >= bits:
+            return none()
+        if I.truth(I.binop("Lt", n, bits, "u32")):
+            return some(_mk_wrapping_shift(op)(I, f, [x, n]))
+        return none()
     return m
 
 
@@ -2729,6 +2749,27 @@ def _int_try_from(I, f, a):
     if fits:
         return ok(I.cast_int(v, src, dst))
     return err(Opaque("TryFromIntError"))
+
+
+@model("std::convert::TryFrom::try_from")
+def _trait_try_from(I, f, a):
+    """unresolved `T::try_from(x)` (generic body): generic arguments are [Self, source]"""
+    ga = [I.subst_ty(str(x)) for x in (f.get("args") or [])]
+    if len(ga) >= 2 and ga[0] in INT_TYPES and ga[1] in INT_TYPES:
+        return _int_try_from(I, {"path": "core::convert::num::<impl std::convert::TryFrom<%s> for %s>::try_from" % (ga[1], ga[0])}, a)
+    raise I.unanalysable("unresolved TryFrom::try_from with generic arguments %r" % (ga,))
+
+
+@model_re(r"^<(\w+) as std::convert::TryFrom<(\w+)>>::try_from$")
+def _generic_int_try_from(I, f, a):
+    """`T::try_from(x)` inside a generic body: decided with what the running call substituted for the type parameters"""
+    import re as _re
+    p = f.get("path") or ""
+    m = _re.match(r"^<(\w+) as std::convert::TryFrom<(\w+)>>::try_from$", p)
+    dst, src = I.subst_ty(m.group(1)), I.subst_ty(m.group(2))
+    if dst not in INT_TYPES or src not in INT_TYPES:
+        raise I.unanalysable("generic try_from with %s <- %s" % (dst, src))
+    return _int_try_from(I, {"path": "core::convert::num::<impl std::convert::TryFrom<%s> for %s>::try_from" % (src, dst)}, a)
 
 
 @model_re(r"convert::num::<impl std::convert::From<(\w+)> for (\w+)>::from$")
